@@ -1,5 +1,47 @@
-//! C11 — not implemented yet.
+//! C11 — view and projection matrices map the frustum as documented for each handedness.
+use vcore::*;
+
+mod logic;
+mod refm;
+
+mod simd {
+    pub const VARIANT: &str = "simd";
+    use ::glam_simd as glam;
+    include!("suite.rs");
+}
+mod scalar {
+    pub const VARIANT: &str = "scalar";
+    use ::glam_scalar as glam;
+    include!("suite.rs");
+}
+mod libmv {
+    pub const VARIANT: &str = "libm";
+    use ::glam_libm as glam;
+    include!("suite.rs");
+}
+#[cfg(feature = "core")]
+mod core_simd {
+    pub const VARIANT: &str = "core";
+    use ::glam_core as glam;
+    include!("suite.rs");
+}
+
 fn main() {
-    eprintln!("c11: not implemented");
-    std::process::exit(2);
+    let args = Args::parse();
+    let mut subs = vec![];
+    #[cfg(not(feature = "core"))]
+    {
+        subs.extend(simd::subs(&args));
+        subs.extend(scalar::subs(&args));
+        // the libm build is part of the thorough tier only (DESIGN C11, B line); replays always see it
+        if args.tier == Tier::Thorough || args.replay.is_some() || args.only.as_deref().map_or(false, |o| o.contains("libm")) {
+            subs.extend(libmv::subs(&args));
+        }
+    }
+    #[cfg(feature = "core")]
+    {
+        subs.extend(core_simd::subs(&args));
+    }
+    let code = main_with("C11", "see MANIFEST / evidence rule", &args, subs);
+    std::process::exit(code);
 }
